@@ -61,6 +61,9 @@ pub enum Payload {
     Str(String),
     /// sized at run time so that the WAL record ends `d` bytes before the region end
     LogFill { d: u8, seed: u32 },
+    /// sized at run time so that the write head ends `d` bytes before the region end AFTER the
+    /// commit that follows this put (needs one earlier put+commit cycle to learn the overhead)
+    CommitFill { d: u8, seed: u32 },
 }
 
 pub const SYLL: &[&str] = &[
@@ -218,7 +221,7 @@ impl Payload {
                 c.repeat(*n as usize).into_bytes()
             }
             Payload::Str(s) => s.clone().into_bytes(),
-            Payload::LogFill { seed, .. } => gen_blob(*seed, 64, BlobKind::NonUtf8),
+            Payload::LogFill { seed, .. } | Payload::CommitFill { seed, .. } => gen_blob(*seed, 64, BlobKind::NonUtf8),
         }
     }
 }
